@@ -247,7 +247,7 @@ fn eval_history(setup: &str, project: &Option<Vec<usize>>, hist: &[usize]) -> Op
 
 // ---- L2: permutations and split points -------------------------------------------------------
 
-fn vcf_of(rows: &[&Vec<Cls>], with_header: bool) -> Vec<u8> {
+fn vcf_of(rows: &[&Vec<Cls>], same_pos: bool) -> Vec<u8> {
     let mut cs = CallSet::new(4);
     for (i, row) in rows.iter().enumerate() {
         // a record in which nobody is called is written as a record whose FORMAT has no GT key;
@@ -260,15 +260,22 @@ fn vcf_of(rows: &[&Vec<Cls>], with_header: bool) -> Vec<u8> {
         }
         let last = cs.records.len() - 1;
         cs.records[last].alts = vec!["C", "G", "T"];
-        cs.records[last].pos = 100 + i;
+        // `same_pos`: every record at position 100, alternating between the two contigs
+        cs.records[last].pos = if same_pos { 100 } else { 100 + i };
+        if same_pos {
+            cs.records[last].chrom = i % 2;
+        }
         cs.records[last].decorated = row[0] == Cls::G1 && row[1] == Cls::G0;
     }
-    let _ = with_header;
     to_vcf(&cs).0
 }
 
 fn cli_create(rows: &[&Vec<Cls>], project: bool, scratch: &Scratch) -> Result<RefArray, String> {
-    let vcf = vcf_of(rows, true);
+    cli_create_at(rows, project, false, scratch)
+}
+
+fn cli_create_at(rows: &[&Vec<Cls>], project: bool, same_pos: bool, scratch: &Scratch) -> Result<RefArray, String> {
+    let vcf = vcf_of(rows, same_pos);
     let sarg = sample_arg(&MAP);
     let mut args = vec!["create", "-s", &sarg];
     if project {
@@ -281,7 +288,7 @@ pub fn run(tier: Tier) -> i32 {
     let mut rep = Report::new("C11", tier, "model_checking");
     let ks = kinds();
     rep.rule = format!(
-        "explicit-state search: 2 populations x 2 samples, set-ups {{no projection, project to (2,2), (4,1), (0,2), (3,0), (0,0) chromosomes}}, alphabet of {} site kinds (complete patterns, partially missing in each/both populations, exactly sufficient, insufficient, multiallelic, all missing, and three kinds with equal allele counts but different called totals). State = hook snapshot (counts, totals, #skipped samples, projection scratch buffer) after a record was read and consumed; BFS until no new state appears; on every transition the Site produced must equal (bitwise) the one a fresh reader produces for that kind and the reference. Bounded histories: every sequence up to length {} accumulates to the sum of single-site contributions (hence every permutation agrees). L2: all permutations and split points of a 7-record VCF (one record without a GT key, one with extra INFO/FORMAT fields). Non-trivial = a transition from a non-initial state.",
+        "explicit-state search: 2 populations x 2 samples, set-ups {{no projection, project to (2,2), (4,1), (0,2), (3,0), (0,0) chromosomes}}, alphabet of {} site kinds (complete patterns, partially missing in each/both populations, exactly sufficient, insufficient, multiallelic, all missing, and three kinds with equal allele counts but different called totals). State = hook snapshot (counts, totals, #skipped samples, projection scratch buffer) after a record was read and consumed; BFS until no new state appears; on every transition the Site produced must equal (bitwise) the one a fresh reader produces for that kind and the reference. Bounded histories: every sequence up to length {} accumulates to the sum of single-site contributions (hence every permutation agrees). L2: all permutations and split points of a 7-record VCF (one record without a GT key, one with extra INFO/FORMAT fields), also with all records at one POS on alternating contigs. Non-trivial = a transition from a non-initial state.",
         ks.len(),
         tier.pick(3, 4)
     );
@@ -356,6 +363,19 @@ pub fn run(tier: Tier) -> i32 {
         let rows: Vec<&Vec<Cls>> = p.iter().map(|&j| pick[j]).collect();
         let got = cli_create(&rows, *proj, &scratch);
         let b = &base[*proj as usize];
+        // the same records all at one POS (alternating contigs) must give the same spectrum
+        let got_same = cli_create_at(&rows, *proj, true, &scratch);
+        let same_ok = match (&got_same, b) {
+            (Ok(x), Ok(y)) => x.shape == y.shape && x.data.iter().zip(&y.data).all(|(a, c)| (a - c).abs() <= 1e-9),
+            _ => false,
+        };
+        if !same_ok {
+            return Some((
+                format!("C11|cli|result-depends-on-positions|{}", if *proj { "project" } else { "no-projection" }),
+                format!("records in order {p:?}, all at POS 100 on alternating contigs, give {got_same:?}; at distinct positions {b:?}"),
+                J::obj([("kind", J::s("c11-samepos")), ("order", J::usizes(p)), ("project", J::Bool(*proj))]),
+            ));
+        }
         let ok = match (&got, b) {
             (Ok(x), Ok(y)) => x.shape == y.shape && x.data.iter().zip(&y.data).all(|(a, c)| if *proj { (a - c).abs() <= 1e-9 } else { a == c }),
             _ => false,
@@ -449,7 +469,7 @@ pub fn run(tier: Tier) -> i32 {
         });
     }
     rep.part(Part {
-        name: "cli: permutations and split points of a 7-record VCF (one record without a GT key, one with extra INFO/FORMAT fields)".into(),
+        name: "cli: permutations and split points of a 7-record VCF (one record without a GT key, one with extra INFO/FORMAT fields), also with all records at one POS on alternating contigs".into(),
         evaluations: (l2jobs.len() + 3 * n_split) as u64,
         nontrivial: (l2jobs.len() + 3 * n_split) as u64,
         note: format!("{} permutations x {{no projection, --project-shape 3,3}}; {} split points (create(a)+create(b) = create(a||b))", perms.len(), n_split),
